@@ -49,6 +49,11 @@ pub fn c09_timed(run: &mut Run) {
             roots.push(History { start: p.clone(), moves: vec![], end: p });
         }
     }
+    // roots on which the search is over long before the slice (a mate in one: all iterations done
+    // within a millisecond or two, the search thread exits): the answer still comes at the plan
+    for p in burst_roots(seed ^ 9, 8) {
+        roots.push(History { start: p.clone(), moves: vec![], end: p });
+    }
     let sessions = tier.pick(16usize, 200);
     let per_session = tier.pick(12usize, 25);
     let res = run_parallel(8, sessions, |sid| {
@@ -65,15 +70,20 @@ pub fn c09_timed(run: &mut Run) {
         for i in 0..per_session {
             let h = &roots[rng.below(roots.len() as u64) as usize];
             s.position(h);
-            let ms = match rng.below(4) {
-                0 => 0,
-                1 => 1 + rng.below(10) as u32,
-                2 => 10 + rng.below(90) as u32,
+            let ms = match rng.below(20) {
+                0..=4 => 0,
+                5..=9 => 1 + rng.below(10) as u32,
+                10..=14 => 10 + rng.below(90) as u32,
+                // one go in twenty gets a long slice (0.3-1.8 s)
+                19 => 300 + rng.below(1500) as u32,
                 _ => 100 + rng.below(150) as u32,
             };
             let args = if ms == 0 { String::new() } else { slice_args(h.end.stm, ms, &mut rng) };
             let mut g = s.go(&args, WATCHDOG);
             acc.evaluations += 1;
+            if ms >= 300 {
+                acc.feature("timed_go_with_a_long_slice");
+            }
             let lat = match g.latency_ms() {
                 Some(l) => l,
                 None => {
